@@ -86,7 +86,7 @@ def lf_float_cut(tier='quick', case=None, seed=0):
     the double-precision expression equals the integer one. K, M are what the bit-blaster finishes in the budget; the general statement
     (|A| < 2**52) stays an assumption with a paper argument (DESIGN 1.1 rule 3)."""
     import os, shutil, subprocess, tempfile, time
-    K, M = (12, 6) if tier == 'quick' else (16, 8)
+    K, M = (12, 6) if tier == 'quick' else (14, 6)
     kind = case['kind']
     W = 64
     tail = {'floor': '(define-fun fl () (_ FloatingPoint 11 53) (fp.roundToIntegral RTN q))\n(assert (not (= ((_ fp.to_ubv %d) RTZ fl) (bvudiv a b))))' % W,
@@ -234,7 +234,7 @@ PROPERTY = dict(
                'bamToCountTable.assignReads (binning branch) + read_should_be_counted + readTag/metaFromRead', 'bamToCountTable.create_count_table: per-file loop (AST cut)'],
     bounds=dict(L1='all integers p >= 0, 1 <= s <= b (unbounded, z3 Int/Real; NIA)', L2_L3='p 0..12, 1 <= s <= b <= 4, contig length 1..14, keepOverBounds symbolic'),
     outside=['pandas export of the table', 'negative coordinates', 'split_double_BAM (calls coordinate_to_bins(p,b,b)[0], covered through L1/L2)'],
-    assumptions=['float cut: int(np.ceil(A/B)) = -((-A)//B), int(np.floor(A/B)) = A//B (lemma F: exact for |A| < 2**52, 0 < B < 2**31 - paper argument; decided bit-precisely by cvc5 (QF_BVFP, IEEE doubles) only for 0 <= A < 2**12, 1 <= B < 2**6 in the quick tier and 2**16 / 2**8 in the thorough tier: lemma LF_float_cut_bounded); E2 treats float division as real division',
+    assumptions=['float cut: int(np.ceil(A/B)) = -((-A)//B), int(np.floor(A/B)) = A//B (lemma F: exact for |A| < 2**52, 0 < B < 2**31 - paper argument; decided bit-precisely by cvc5 (QF_BVFP, IEEE doubles) only for 0 <= A < 2**12, 1 <= B < 2**6 in the quick tier and 2**14 / 2**6 in the thorough tier (16 / 8 bits did not finish in 600 s): lemma LF_float_cut_bounded); E2 treats float division as real division',
                  'float cuts applied at load: %r' % (_CUTS,)],
     trusted=['vlib/py2smt.py translator (validated on a grid against the real functions on every run)', 'vlib/floatcut.py', 'stubs/fakeread.py', 'spec/c10.py'],
 )
